@@ -27,6 +27,15 @@ def jobs(prop, tier, seed):
         variant = "normalise" if union_free(spec) else "monotone"
         b = dict(depth=2, width=2, strlen=2, budget=1 if q else 2, int_abs=99 if q else 999, float_pool=True, str_pool=True)
         out.append(dict(harness="C14", variant=variant, pool="data", pid=pid, opts={}, bounds=b, budget_s=30 if q else 150))
+    # discriminated / tagged unions: what strict mode accepts, coercion accepts (monotone)
+    for pid in pools.ids("union", tier):
+        spec, _ = pools.get("union", pid)
+        if pid in pools.ids("data", tier) or not any(s.k == "disc" or (s.k == "obj" and s.opt("tagged")) for s in walk(spec)):
+            continue
+        b = dict(depth=2, width=2, strlen=2, budget=1 if q else 2, int_abs=99 if q else 999, float_pool=True, str_pool=True)
+        out.append(dict(harness="C14", variant="monotone", pool="union", pid=pid, opts={}, bounds=b, budget_s=30 if q else 150))
+        # ... and on valid data alone (no deviation budget), deeper
+        out.append(dict(harness="C14", variant="monotone", pool="union", pid=pid, opts={}, bounds=dict(b, budget=0, depth=3), budget_s=30 if q else 150))
     for pid in pools.ids("data", tier):
         spec, _ = pools.get("data", pid)
         if q and pools.POOLS["data"]()[pid][2] != "quick":
